@@ -184,11 +184,18 @@ func applyConds[R any](cs []cond, mk func(string) R, onErrs func(...error), onTy
 			}
 		}
 	}
-	if len(errs) > 0 {
-		onErrs(errs...)
-		for i := range errs {
-			errs[i] = errors.New("overwritten after the registration") // the caller reuses its slice: the registration keeps what it was given
+	regErrs := func() {
+		if len(errs) > 0 {
+			onErrs(errs...)
+			for i := range errs {
+				errs[i] = errors.New("overwritten after the registration") // the caller reuses its slice: the registration keeps what it was given
+			}
 		}
+	}
+	// (every other call registers the errors LAST: no registration replaces an earlier one)
+	errsLast := emptyCalls.Add(1)%2 == 0
+	if !errsLast {
+		regErrs()
 	}
 	if len(types) > 0 {
 		onTypes(types...)
@@ -223,6 +230,9 @@ func applyConds[R any](cs []cond, mk func(string) R, onErrs func(...error), onTy
 				onIf(func(r R, e error) bool { return errors.Is(e, errE2) })
 			}
 		}
+	}
+	if errsLast {
+		regErrs()
 	}
 }
 
